@@ -1021,9 +1021,39 @@ class PandasModelBase(
             )
         left = self._eval_value_source(op.sources[0], data_map=data_map)
         right = self._eval_value_source(op.sources[1], data_map=data_map)
+        # SQL semantics: a missing key value matches nothing, pandas.merge matches missing to missing.
+        # Rows with a missing key are set aside and come back unmatched where the join type keeps them.
+        aside = []
+        if len(op.on_a) > 0:
+            left_missing = left[op.on_a].isnull().any(axis=1)
+            right_missing = right[op.on_b].isnull().any(axis=1)
+            if left_missing.any() or right_missing.any():
+                if op.jointype in ["LEFT", "FULL"]:
+                    aside.append(left.loc[left_missing, :])
+                if op.jointype in ["RIGHT", "FULL"]:
+                    aside.append(right.loc[right_missing, :])
+                left = left.loc[numpy.logical_not(left_missing), :].reset_index(
+                    drop=True, inplace=False
+                )
+                right = right.loc[numpy.logical_not(right_missing), :].reset_index(
+                    drop=True, inplace=False
+                )
+                aside = [d for d in aside if d.shape[0] > 0]
+
+        def with_aside(res):
+            """append the set aside rows as unmatched rows"""
+            if len(aside) > 0:
+                res = self.pd.concat(
+                    [res] + [d.reindex(columns=res.columns) for d in aside],
+                    ignore_index=True,
+                )
+            return res
+
         if (left.shape[0] == 0) and (right.shape[0] == 0):
             # pandas seems to not like this case
-            return self.pd.DataFrame({k: [] for k in op.columns_produced()})
+            return with_aside(
+                self.pd.DataFrame({k: [] for k in op.columns_produced()})
+            )
         common_cols = set([c for c in left.columns]).intersection(
             [c for c in right.columns]
         )
@@ -1061,6 +1091,7 @@ class PandasModelBase(
                 # left value, else right value (combine_first also reconciles the two column types)
                 res[c] = res[c].combine_first(res[c + "_tmp_right_col"])
                 res = res.drop(c + "_tmp_right_col", axis=1, inplace=False)
+        res = with_aside(res)
         self.drop_indices(res)
         return res
 
